@@ -69,6 +69,15 @@ pub fn gen_unbounded(rng: &mut Rng, seed: u64, class: u64) -> Case {
     let mut params = scenario::gen_params(rng);
     params.idle_client_ms = rng.range(5, 15) * 1000;
     params.idle_server_ms = rng.range(5, 15) * 1000;
+    // quiescent class: now and then one side disables its own idle timeout; the effective value is
+    // then the peer's (RFC 9000 §10.1: the minimum of the two, a zero meaning "none")
+    if class == 0 {
+        match rng.below(6) {
+            0 => params.idle_client_ms = 0,
+            1 => params.idle_server_ms = 0,
+            _ => {}
+        }
+    }
     let tb = Duration::from_millis(match class {
         0 => 4000,
         1 => *rng.pick(&[0u64, 1, 5, 15, 30]),
@@ -192,6 +201,9 @@ pub fn observe(rep: &mut Report, case: &Case, out: &Outcome, v: &Verdict) {
     } else {
         rep.count("unbounded_scenarios");
         rep.count(&format!("unbounded_class_{}", unbounded_class(case, out)));
+        if case.spec.params.idle_client_ms == 0 || case.spec.params.idle_server_ms == 0 {
+            rep.count("unbounded_one_side_idle_timeout_disabled");
+        }
         if out.finished {
             rep.count("unbounded_all_futures_resolved");
         }
